@@ -630,6 +630,28 @@ def special_C18(tier, seed, harness, work):
     return {"coverage": cov, "violations": viol}
 
 
+def special_C16(tier, seed, harness, work):
+    """every kind of Go type (struct, basic, pointer, interface, func, chan, generic instantiation ...) maps to one id
+    through ComponentID[T] / TypeID / Map[T] and ResourceID[T] / ResourceTypeID / Resource[T]"""
+    cov = {}
+    viol = []
+    for tags in ("verif", "verif,tiny"):
+        ok, log, hb = vlib.build_harness(tags)
+        if not ok:
+            rp = os.path.join(VERIF, "replays", "C16-build.txt")
+            open(rp, "w").write("harness does not build with tags %s:\n%s" % (tags, log))
+            return {"coverage": cov, "violations": [(rp, "no-failing-input-found")]}
+        p = subprocess.run([hb, "typeshapes"], stdout=subprocess.PIPE, stderr=subprocess.STDOUT, timeout=600)
+        out = p.stdout.decode(errors="replace")
+        cov["type_shapes_" + tags.replace(",", "_")] = out.strip().split("\n")[-1][:300]
+        if p.returncode != 0:
+            rp = os.path.join(VERIF, "replays", "C16-shapes-%s.txt" % tags.replace(",", "-"))
+            open(rp, "w").write("# C16: a Go type does not map to one id through every entry point (build tags %s)\n# re-run: /verif/harness/bin/harness-%s typeshapes\n%s\n" % (tags, tags.replace(",", "-"), out[-8000:]))
+            viol.append((rp, ""))
+            break
+    return {"coverage": cov, "violations": viol}
+
+
 def special_C20(tier, seed, harness, work):
     """generic.Resource / ecs.AddResource / GetResource against the ID-based resource calls (fixed scenarios of the generic arm)"""
     cov = {}
